@@ -58,14 +58,18 @@ def run(tier, replay=None):
     c.trusted = ["asset generator ground truth / independent VoD parse (harness/project)", "per-frame payload digests", "TLC"]
     wk = 4
     jobs = [("AudioReseg_MC", f"AudioReseg_{tier}.cfg", dict(workers=wk, timeout=1500, required_actions=("NextSeg",))),
-            # implementation-shaped explorer of calcAudioSegRecipe/createAudioSeg with the proposed end-index fix: agrees with the oracle
-            ("AudioResegImpl_MC", f"AudioResegImpl_fixed_{tier}.cfg", dict(workers=wk, timeout=1500, required_actions=("NextSeg",))),
-            ("AudioResegImpl_MC", "AudioResegImpl_fixed_vod0.cfg", dict(workers=wk, timeout=1500)),
-            # design counterexamples of the code as it is (documentation; the verdict comes from the real code below)
-            ("AudioResegImpl_MC", "AudioResegImpl_asis_quick.cfg", dict(workers=1, expect="violation", expect_violated=("Served",), coverage=False)),
-            ("AudioResegImpl_MC", "AudioResegImpl_fixed_gap.cfg", dict(workers=1, expect="violation", expect_violated=("Served",), coverage=False))]
-    res = c.models(jobs, parallel=3)
-    c.extra["design_counterexamples"] = {"end_index_inside_one_vod_segment": res[3].violated, "segment_after_end_of_vod_audio": res[4].violated}
+            # implementation-shaped explorer of calcAudioSegRecipe/createAudioSeg as in the CURRENT code: agrees with the oracle
+            ("AudioResegImpl_MC", f"AudioResegImpl_{tier}.cfg", dict(workers=wk, timeout=1500, required_actions=("NextSeg",))),
+            ("AudioResegImpl_MC", "AudioResegImpl_vod0.cfg", dict(workers=wk, timeout=1500)),
+            ("AudioResegImpl_MC", "AudioResegImpl_gap.cfg", dict(workers=wk, timeout=1500))]
+    if tier == "thorough":
+        # design counterexamples of the ORIGINAL algorithm (before /repo commits 9a9819e, 9a9f787), kept as documentation
+        jobs += [("AudioResegImpl_MC", "AudioResegImpl_orig_endidx.cfg", dict(workers=1, expect="violation", expect_violated=("Served",), coverage=False)),
+                 ("AudioResegImpl_MC", "AudioResegImpl_orig_gap.cfg", dict(workers=1, expect="violation", expect_violated=("Served",), coverage=False))]
+    res = c.models(jobs, parallel=4)
+    if tier == "thorough":
+        c.extra["design_counterexamples_original_algorithm"] = {"end_index_inside_one_vod_segment": res[4].violated,
+                                                                "segment_after_end_of_vod_audio": res[5].violated}
     c.exhaustive = False
 
     drive = vlib.build_harness(cmd="c03")
